@@ -135,7 +135,8 @@ func outcomes(gen string) []outcome {
 	// a typed nil *ErrorResponse returned as the error (the classic Go slip), and statuses no HTTP response can carry:
 	// a failure status and an error for the caller, never a crashed connection
 	out = append(out, outcome{name: "typed-nil-error-response", apply: func(r *Reply) *common.ErrorResponse { r.Err = (*common.ErrorResponse)(nil); return nil }, failure: true})
-	for _, st := range []int32{0, 99, 1000, -1} {
+	// (1xx: net/http would send an informational response and then answer 200)
+	for _, st := range []int32{0, 99, 1000, -1, 100, 150, 199} {
 		e, _ := newErrorResponse(2)
 		st := st
 		e.Status = &st
